@@ -6,80 +6,8 @@
 //                      M <k> <k words>          column multipliers m_c
 // case line: <id> <call:ntt|intt|ext> <S> <d> <e> <ncols> <nphase> <nblock> <dst:same|other|null> <buf:null|caller> <nthreads>
 // history line (C19): H <id> <S> <nthreads> <k> then k call descriptors "call:d:e:ncols:nphase:nblock:dst:buf" (shared object)
-#include "ntt_goldilocks.hpp"
-#include "vh.hpp"
+#include "ntt_run.hpp"
 #include <fcntl.h>
-#include <map>
-typedef Goldilocks::Element E;
-typedef unsigned __int128 u128;
-
-static std::map<int, std::vector<uint64_t>> X;
-static std::vector<uint64_t> Mc;
-
-static uint64_t cell(int d, uint64_t j, uint64_t c)
-{
-    uint64_t x = X[d][j] % vh::PRIME, m = Mc[c] % vh::PRIME;
-    uint64_t v = (uint64_t)(((u128)x * m) % vh::PRIME);
-    // representation mix: some cells in the non-canonical band [p, 2^64)
-    if (((j * 7 + c * 3 + d) % 5 == 0) && v < 0xFFFFFFFFULL)
-        v += vh::PRIME;
-    return v;
-}
-
-struct Call
-{
-    std::string call, dst, buf;
-    int d, e;
-    uint64_t ncols, nphase, nblock;
-};
-
-struct Result
-{
-    std::vector<uint64_t> out;
-    bool src_same = true, slack_ok = true, unchanged = true;
-};
-
-// executes one call on the given object; returns the output matrix (rows x ncols)
-static Result run_call(NTT_Goldilocks &obj, const Call &c)
-{
-    Result R;
-    uint64_t N = 1ULL << c.d, NE = 1ULL << (c.d + c.e), nc = c.ncols;
-    bool ext = c.call == "ext";
-    uint64_t outRows = ext ? NE : N;
-    bool other = c.dst == "other";
-    const uint64_t GARB = 0xA5A5A5A5DEADBEEFULL;
-    vh::GBuf in = vh::galloc((other ? N : outRows) * nc, GARB);
-    for (uint64_t j = 0; j < N; j++)
-        for (uint64_t k = 0; k < nc; k++)
-            in.p[j * nc + k] = cell(c.d, j, k);
-    std::vector<uint64_t> in0(in.p, in.p + in.n);
-    vh::GBuf out;
-    if (other)
-        out = vh::galloc(outRows * nc, GARB ^ 0x1111);
-    vh::GBuf buf;
-    if (c.buf == "caller")
-        buf = vh::galloc(outRows * nc, GARB ^ 0x2222);
-    E *src = (E *)in.p;
-    E *dst = other ? (E *)out.p : (c.dst == "same" ? (E *)in.p : nullptr);
-    E *bufp = c.buf == "caller" ? (E *)buf.p : nullptr;
-    if (c.call == "ntt")
-        obj.NTT(dst, src, N, nc, bufp, c.nphase, c.nblock);
-    else if (c.call == "intt")
-        obj.INTT(dst, src, N, nc, bufp, c.nphase, c.nblock);
-    else
-        obj.extendPol(dst, src, NE, N, nc, bufp, c.nphase, c.nblock);
-    uint64_t *res = other ? out.p : in.p;
-    R.out.assign(res, res + outRows * nc);
-    if (other)
-        R.src_same = memcmp(in.p, in0.data(), in.n * 8) == 0;
-    R.slack_ok = vh::gslack_ok(in) && (!other || vh::gslack_ok(out)) && (c.buf != "caller" || vh::gslack_ok(buf));
-    vh::gfree(in);
-    if (other)
-        vh::gfree(out);
-    if (c.buf == "caller")
-        vh::gfree(buf);
-    return R;
-}
 
 static void cfg_fields(vh::Out &o, const Call &c, int S, int nth)
 {
